@@ -89,6 +89,22 @@ func Run(ctx *common.Ctx) int {
 			fast.MkTaskPrimed("C08", "c08", w, "all-pass", fast.SrcSpec{Kind: "uniform", Index2: -1, Size: "half"}, W, 0, 3, 1, pr[1], &tasks)
 		}
 	}
+	// two consecutive calls on one source (two sets of samples, a stream that ends exactly after them with
+	// the final Read reporting EOF together with its bytes): the pair of results and the bytes consumed must
+	// equal the sequential twin's - a parallel variant that reads ahead or leaves bytes behind judges other
+	// samples in its second call
+	for wi := range wf.All {
+		w := &wf.All[wi]
+		if quick && w.Name == "Factory" {
+			continue
+		}
+		for _, W := range []int{1, 2} {
+			for _, scn := range []string{"all-pass", "item11-below-threshold"} {
+				fast.MkTaskX("C08", "c08", w, scn, fast.SrcSpec{Kind: "full", Index2: -1}, W, W-1, 0, 1, fast.Params{Twice: true}, &tasks)
+				fast.MkTaskX("C08", "c08", w, scn, fast.SrcSpec{Kind: "eofwith", Index2: -1}, W, 0, 3, 1, fast.Params{Twice: true}, &tasks)
+			}
+		}
+	}
 	ctx.Printf("C08: %d exploration tasks (instrumented constructs: %v)\n", len(tasks), info.Counts)
 	m := e1.RunTasks(ctx, info.Bin, tasks, 0, false)
 	// race pass: same bodies, free-running, -race
